@@ -33,7 +33,7 @@ ASSUMPTIONS = [
     'random.sample inside sample_parameters is seeded by the harness from the case',
     'stored spectrum compared with an independent model at the MAP on the full native grid and the C05 reference binning, rtol 1e-9',
 ]
-REQUIRED = {'refit-on-same-optimizer': 0.15, 'sampler:nestle': 0.3, 'sampler:multinest': 0.2, 'weights:nonuniform': 0.4, 'has-derived': 0.3}
+REQUIRED = {'refit-on-same-optimizer': 0.15, 'sampler:nestle': 0.15, 'sampler:multinest': 0.15, 'weights:nonuniform': 0.3, 'has-derived': 0.2}
 
 DERIVED = ['mu', 'logg', 'avg_T']
 
